@@ -237,6 +237,22 @@ pub fn tactical_roots() -> Vec<GameSpec> {
         "8/8/8/8/8/5k2/7q/7K w - - 0 1",
         "3qr1k1/8/8/8/8/8/8/4R1K1 w - - 99 120",
         "6k1/1R3p2/6p1/2Bp3p/3P2q1/P7/1P2rQ1K/5R2 b - - 4 44",
+        // mates whose last move is a capture (the mating move is found inside quiescence one iteration early)
+        "3r2k1/5ppp/8/8/8/8/4R3/4R1K1 w - - 0 1",
+        "4R1k1/5ppp/8/8/8/8/4r3/3r2K1 b - - 0 1",
+        "6k1/5ppp/4r3/8/8/8/1Q6/1R4K1 w - - 0 1",
+        "r5k1/5ppp/8/8/8/8/5PPP/1R1R2K1 w - - 0 1",
+        "5rk1/5ppp/8/8/8/2B5/1Q6/6K1 w - - 0 1",
+        "k7/pp6/8/8/8/8/8/K2R3R w - - 0 1",
+        "7k/6pp/8/8/8/8/r7/1r4K1 b - - 0 1",
+        // the only mate in one is an under-promotion (found with `tvc find-underpromo`); second one colour-mirrored
+        "K7/1P6/k7/8/1Q6/8/8/8 w - - 0 1",
+        "8/8/8/8/8/5K1k/1q4p1/8 b - - 0 1",
+        "8/2P5/1K1k4/5Q2/8/8/8/8 w - - 0 1",
+        // under-promotions in the line
+        "8/5P1k/5K2/8/8/8/8/8 w - - 0 1",
+        "8/8/8/8/8/2k5/2p5/K7 b - - 0 1",
+        "6k1/4P3/6K1/8/8/8/8/8 w - - 0 1",
         // very many legal moves (late-move-reduction table bounds)
         "R6R/3Q4/1Q4Q1/4Q3/2Q4Q/Q4Q2/pp1Q4/kBNN1KB1 w - - 0 1",
         "3Q4/1Q4Q1/4Q3/2Q4R/Q4Q2/3Q4/1Q4Rp/1K1BBNNk w - - 0 1",
@@ -290,6 +306,27 @@ pub fn cross_sessions(depth: u8) -> Vec<Session> {
     out
 }
 
+/// Searches to the maximum depth on tiny trees (the iteration counter and the depth arithmetic at their limits).
+pub fn max_depth_sessions() -> Vec<Session> {
+    let roots = [
+        "8/8/8/3k4/8/3K4/8/8 w - - 0 1",       // bare kings
+        "8/8/8/8/4k3/8/8/r3K3 w - - 99 80",    // root in check, everything below is a fifty-move draw
+        "8/8/8/8/4K3/8/8/R3k3 b - - 99 80",    // same, colours swapped
+        "8/8/8/3k4/8/3KN3/8/8 b - - 0 1",      // king and minor v king
+        "7k/5K2/8/6Q1/8/8/8/8 b - - 100 90",   // clock already at 100, one legal move
+    ];
+    let mut out = vec![];
+    for r in roots {
+        let g = GameSpec::fen(r);
+        for d in [254u8, 255] {
+            out.push(Session { hash_mb: 1, start_gen: 0, steps: vec![Step::Search(g.clone(), Spec::depth(d), Env::Default)] });
+        }
+        // no depth limit at all: the search ends by itself at the maximum depth
+        out.push(Session { hash_mb: 1, start_gen: 0, steps: vec![Step::Search(g.clone(), Spec { depth: None, tc: Tc::Infinite, overhead_ms: 0 }, Env::Default)] });
+    }
+    out
+}
+
 /// 300 consecutive searches on one state (generation counter).
 pub fn generation_session() -> Session {
     let g = GameSpec::fen("8/8/8/4k3/8/8/4P3/4K3 w - - 0 1");
@@ -298,8 +335,9 @@ pub fn generation_session() -> Session {
 
 /// Clock-limited searches with every clock-read index as the expiry point.
 pub fn clock_expiry_sessions(run: &Run, stats: &Stats, quick: bool) -> Vec<Session> {
-    let roots = ["8/6k1/8/2R5/8/1K6/3Q1p2/8 w - - 1 25", "rnbqkbnr/pppppppp/8/8/8/8/PPPPPPPP/RNBQKBNR w KQkq - 0 1", "r3k2r/p1ppqpb1/bn2pnp1/3PN3/1p2P3/2N2Q1p/PPPBBPPP/R3K2R w KQkq - 0 1", "7k/8/5K2/6Q1/8/8/8/8 b - - 0 1"];
-    let tcs = [Tc::MoveTime(100), Tc::Clocks(Some(1000), Some(1000), None, None, None), Tc::Clocks(Some(60_000), Some(60_000), Some(1000), Some(1000), Some(20))];
+    // the last two: quiescence explosions, where the limit can expire before the first root move of iteration 1 is scored
+    let roots = ["8/6k1/8/2R5/8/1K6/3Q1p2/8 w - - 1 25", "rnbqkbnr/pppppppp/8/8/8/8/PPPPPPPP/RNBQKBNR w KQkq - 0 1", "r3k2r/p1ppqpb1/bn2pnp1/3PN3/1p2P3/2N2Q1p/PPPBBPPP/R3K2R w KQkq - 0 1", "7k/8/5K2/6Q1/8/8/8/8 b - - 0 1", "q2k2q1/2nqn2b/1n1P1n1b/2rnr2Q/1NQ1QN1Q/3Q3B/2RQR2B/Q2K2Q1 w - - 0 1", "R6R/3Q4/1Q4Q1/4Q3/2Q4Q/Q4Q2/pp1Q4/kBNN1KB1 w - - 0 1"];
+    let tcs = [Tc::MoveTime(100), Tc::MoveTime(0), Tc::Clocks(Some(1000), Some(1000), None, None, None), Tc::Clocks(Some(60_000), Some(60_000), Some(1000), Some(1000), Some(20))];
     let maxdepth = if quick { 5 } else { 7 };
     let mut out = vec![];
     for r in roots {
@@ -367,11 +405,16 @@ pub fn c04_c08(run: &Run, focus: Focus) -> (u64, u64) {
         run_sessions(run, focus, &s, &stats);
         total_sessions += 1;
         run.family("GENERATIONS", "300 consecutive searches on one persistent state", 1, stats.searches.load(Ordering::Relaxed) - before, true, "");
+        let s = max_depth_sessions();
+        let before = stats.searches.load(Ordering::Relaxed);
+        run_sessions(run, focus, &s, &stats);
+        total_sessions += s.len() as u64;
+        run.family("MAX-DEPTH", "5 tiny-tree roots (bare kings, root in check with the clock at 99, king+minor, clock at 100) x depth limit 254, 255 and none", s.len() as u64, stats.searches.load(Ordering::Relaxed) - before, true, "");
         let sessions = clock_expiry_sessions(run, &stats, quick);
         let before = stats.searches.load(Ordering::Relaxed);
         run_sessions(run, focus, &sessions, &stats);
         total_sessions += sessions.len() as u64;
-        run.family("CLOCK-EXPIRY", "4 roots x {movetime 100, clocks 1000+0, clocks 60000+1000/20} : the clock reads 'expired' from the r-th read on, for every r of the unperturbed search; followed by a depth-3 search on the same state", sessions.len() as u64, stats.searches.load(Ordering::Relaxed) - before, true, "virtual clock");
+        run.family("CLOCK-EXPIRY", "6 roots (two quiescence explosions) x {movetime 100, movetime 0, clocks 1000+0, clocks 60000+1000/20} : the clock reads 'expired' from the r-th read on, for every r of the unperturbed search; followed by a depth-3 search on the same state", sessions.len() as u64, stats.searches.load(Ordering::Relaxed) - before, true, "virtual clock");
     }
     run.count("searches", stats.searches.load(Ordering::Relaxed));
     run.count("info_lines", stats.infos.load(Ordering::Relaxed));
@@ -397,6 +440,10 @@ pub fn c09(run: &Run) -> (u64, u64) {
     // mate jumps (aspiration re-search) and endgames
     for f in ["8/6k1/8/2R5/8/1K6/3Q1p2/8 w - - 1 25", "8/8/8/4k3/8/8/8/3QK3 w - - 0 1", "k7/8/1K6/8/8/8/8/7R w - - 0 1"] {
         roots.push((GameSpec::fen(f), Spec::depth(if quick { 8 } else { 10 })));
+    }
+    // small endgames: a later search meets the positions of the stopped one again
+    for f in ["8/8/8/4k3/8/8/4P3/4K3 w - - 0 1", "8/5p2/5k2/8/5K2/5P2/8/8 w - - 0 1", "8/8/p7/P7/1k6/8/1K6/8 b - - 0 1", "8/8/8/3k4/8/8/8/R3K3 b - - 0 1"] {
+        roots.push((GameSpec::fen(f), Spec::depth(if quick { 11 } else { 13 })));
     }
     // time-limited under the virtual clock (1 microsecond per node)
     roots.push((GameSpec::fen(mid[1]), Spec { depth: None, tc: Tc::MoveTime(150), overhead_ms: 0 }));
@@ -439,8 +486,10 @@ pub fn c09(run: &Run) -> (u64, u64) {
             c
         };
         for k in 1..=p {
-            // fresh table
-            sessions.push(Session { hash_mb: 1, start_gen: 0, steps: vec![Step::Search(g.clone(), spec.clone(), base_env(Some(k))), Step::Search(g.clone(), Spec::depth(4), Env::Default), Step::Search(child.clone(), Spec::depth(4), Env::Default)] });
+            // fresh table; afterwards the SAME search unperturbed on the same tables (it walks through the
+            // positions the stopped search stood in), then a child position
+            let again = if timed { Spec::depth(5) } else { spec.clone() };
+            sessions.push(Session { hash_mb: 1, start_gen: 0, steps: vec![Step::Search(g.clone(), spec.clone(), base_env(Some(k))), Step::Search(g.clone(), again, Env::Default), Step::Search(child.clone(), Spec::depth(4), Env::Default)] });
             // table pre-filled by a previous complete search of the same position one ply shallower
             if let Some(d) = spec.depth {
                 sessions.push(Session { hash_mb: 1, start_gen: 255, steps: vec![Step::Search(g.clone(), Spec::depth(d - 1), Env::Default), Step::Search(g.clone(), spec.clone(), base_env(Some(k))), Step::Search(child.clone(), Spec::depth(4), Env::Default)] });
